@@ -40,6 +40,7 @@ class Gen:
     def __init__(s, mod, uf=False, ovr=()):
         s.m = mod; s.uf = uf; s.ovr = set(ovr)
         s.tnames = {}; s.tdefs = []; s.all_types = []; s.body = []; s.protos = []
+        s.helpers = {}       # C element type -> helper id (typed calloc/realloc/zero/copy)
         s.strings = {}
         for nm, g in mod.gl.items():
             if isinstance(g.init, CStr):
@@ -212,6 +213,29 @@ class Gen:
             s.fail("non-pointer bitcast %s -> %s" % (ft.key(), tt.key()))
         s.fail(op)
 
+    def helper(s, T_):
+        if T_ not in s.helpers: s.helpers[T_] = 'K%d' % len(s.helpers)
+        return s.helpers[T_]
+
+    def helper_defs(s):
+        o = []
+        for T_, k in s.helpers.items():
+            zero = '(%s){0}' % T_ if T_.startswith('struct ') else '0'
+            o.append('''#ifdef __CPROVER__
+static %(T)s* vf_calloc_%(k)s(u64 n) { %(T)s* p = malloc(sizeof(%(T)s) * n); if (p) for (u64 i = 0; i < n; ++i) p[i] = %(z)s; return p; }
+static %(T)s* vf_realloc_%(k)s(%(T)s* old, u64 n) { %(T)s* p = malloc(sizeof(%(T)s) * n); if (!p) return p; if (old) { u64 on = __CPROVER_OBJECT_SIZE(old) / sizeof(%(T)s); for (u64 i = 0; i < on && i < n; ++i) p[i] = old[i]; free(old); } return p; }
+static void vf_zero_%(k)s(%(T)s* p, u64 n) { for (u64 i = 0; i < n; ++i) p[i] = %(z)s; }
+static void vf_copy_%(k)s(%(T)s* d, %(T)s* s, u64 n) { for (u64 i = 0; i < n; ++i) d[i] = s[i]; }
+static void vf_move_%(k)s(%(T)s* d, %(T)s* s, u64 n) { if (d <= s) { for (u64 i = 0; i < n; ++i) d[i] = s[i]; } else { for (u64 i = n; i > 0; --i) d[i - 1] = s[i - 1]; } }
+#else
+static %(T)s* vf_calloc_%(k)s(u64 n) { return calloc(n, sizeof(%(T)s)); }
+static %(T)s* vf_realloc_%(k)s(%(T)s* old, u64 n) { return realloc(old, n * sizeof(%(T)s)); }
+static void vf_zero_%(k)s(%(T)s* p, u64 n) { memset(p, 0, n * sizeof(%(T)s)); }
+static void vf_copy_%(k)s(%(T)s* d, %(T)s* s, u64 n) { memcpy(d, s, n * sizeof(%(T)s)); }
+static void vf_move_%(k)s(%(T)s* d, %(T)s* s, u64 n) { memmove(d, s, n * sizeof(%(T)s)); }
+#endif''' % {'T': T_, 'k': k, 'z': zero})
+        return o
+
     # ---------------------------------------------------------------- functions
     def emit_function(s, f):
         ft = f.ftype; m = s.m
@@ -237,6 +261,14 @@ class Gen:
                 if I.op == 'bitcast' and isinstance(I.v, Local) and isinstance(I.tt, TPtr) and I.v.name not in alloc_type:
                     if isinstance(s.resolve(I.ft), TPtr) and isinstance(s.resolve(I.ft).to, TInt) and s.resolve(I.ft).to.n == 8:
                         alloc_type[I.v.name] = I.tt.to
+        s.castsrc = {}     # i8* local -> element type it was cast from
+        for b in f.blocks:
+            for I in b.ins:
+                if I.op == 'bitcast' and I.dst and isinstance(s.resolve(I.tt), TPtr) and isinstance(s.resolve(I.ft), TPtr):
+                    tt = s.resolve(s.resolve(I.tt).to); ft_ = s.resolve(I.ft).to
+                    if isinstance(tt, TInt) and tt.n == 8 and not (isinstance(s.resolve(ft_), TInt) and s.resolve(ft_).n == 8) \
+                       and not isinstance(s.resolve(ft_), (TVoid, TFunc, TOpaque)):
+                        s.castsrc[I.dst] = ft_
         phis = {b.label: b.phis for b in f.blocks}
         for b in f.blocks:
             for I in b.phis:
@@ -402,6 +434,15 @@ class Gen:
                 return None
             if n.startswith('stacksave'): return asg + '(char*)0;'
             if base in ('memcpy', 'memmove', 'memset'):
+                a0 = I.args[0][1]; a1 = I.args[1][1]
+                et = s.castsrc.get(a0.name) if isinstance(a0, Local) else None
+                if et is not None and base == 'memset' and isinstance(a1, CInt) and a1.v == 0:
+                    T_ = s.ct(et); k = s.helper(T_)
+                    return 'vf_zero_%s((%s*)%s, %s / sizeof(%s));' % (k, T_, args[0], args[2], T_)
+                if et is not None and base != 'memset' and isinstance(a1, Local) and a1.name in s.castsrc \
+                   and s.castsrc[a1.name].key() == et.key():
+                    T_ = s.ct(et); k = s.helper(T_)
+                    return 'vf_%s_%s((%s*)%s, (%s*)%s, %s / sizeof(%s));' % ('copy' if base == 'memcpy' else 'move', k, T_, args[0], T_, args[1], args[2], T_)
                 return '%s(%s, %s, %s);' % (base, args[0], args[1] if base != 'memset' else '(int)' + args[1], args[2])
             if base in MATH_INTRINSICS:
                 cf = {'minnum': 'fmin', 'maxnum': 'fmax'}.get(base, base)
@@ -443,10 +484,10 @@ class Gen:
             return '__CPROVER_assert(0, "%s called"); __CPROVER_assume(0);' % callee[1:]
         if callee in ('@malloc', '@calloc', '@realloc') and callee[1:] not in s.ovr and I.dst in alloc_type \
            and not isinstance(s.resolve(alloc_type[I.dst]), (TVoid, TFunc, TOpaque)):
-            T_ = s.ct(alloc_type[I.dst])
+            T_ = s.ct(alloc_type[I.dst]); k = s.helper(T_)
             if callee == '@malloc': e = 'malloc(sizeof(%s) * (%s / sizeof(%s)))' % (T_, args[0], T_)
-            elif callee == '@calloc': e = 'calloc((%s * %s) / sizeof(%s), sizeof(%s))' % (args[0], args[1], T_, T_)
-            else: e = 'realloc((void*)%s, sizeof(%s) * (%s / sizeof(%s)))' % (args[0], T_, args[1], T_)
+            elif callee == '@calloc': e = 'vf_calloc_%s((%s * %s) / sizeof(%s))' % (k, args[0], args[1], T_)
+            else: e = 'vf_realloc_%s((%s*)%s, %s / sizeof(%s))' % (k, T_, args[0], args[1], T_)
             return '%s(%s)%s;' % (asg, rc, e)
         if callee and s.is_header_fn(callee):
             cexpr = cname(callee)
@@ -535,6 +576,7 @@ class Gen:
             if ft.va: args = (args + ', ...') if args else '...'
             o.append('%s %s(%s);' % (s.ct(ft.ret), s.fname(nm), args or 'void'))
         o += o2
+        o += s.helper_defs()
         o += s.protos + ['extern %s%s g_%s;' % ('const ' if g.const else '', s.ct(g.ty), cname(nm)) for nm, g in m.gl.items()] + gvals + s.body
         return '\n'.join(o) + '\n'
 
